@@ -66,6 +66,7 @@ def wl_heavy(ctx, rng, case):
         last[k0] = hh.add(k0, case.ops[-1][2])
         ctx.count("heavy.histories_with_total_at_int64_limit")
     for step in range(n_steps):
+        bl.noise_reads(ctx, rng, hh, keys)
         r = rng.random()
         if r < 0.93:
             k = rng.choice(keys)
@@ -144,6 +145,7 @@ def wl_threshold(ctx, rng, case):
     n_steps = rng.randint(5, 60)
     since_read = 0
     for step in range(n_steps):
+        bl.noise_reads(ctx, rng, st, keys)
         r = rng.random()
         live = [k for k in keys if true[k] > 0]
         if r < 0.6 or not live:
